@@ -25,6 +25,9 @@ CONSTANTS
   JumpToFirstAvailable = FALSE
   ReportOnlyIfBitSet = FALSE
   ResendWithoutCheck = FALSE
+  RejoinAtIndex = FALSE
+  DropPausePair = FALSE
+  TrackRepeat = FALSE
 SPECIFICATION Spec
 VIEW View
 INVARIANTS TypeOK C01_Conservation C01_ServedOnce C01_NoSilentDrop C02_Bound C02_NoForcedSend C03_NoLostWake C04_RoundRobin C04_BitsTrueWhenCalm C05_ListenerLive C05_UdsReachable C05_ConnErrNoDelay C05_TimerHasTimeout C08_NoPanic C08_NoSpin C08_NoGhostBit C08_NoDupHandles C08_FaultReportedOnce C08_NoLostIndex LogInit
